@@ -321,8 +321,13 @@ def main():
         "checks": checks,
         "not_applicable": na,
         "notes": "exit 0 = held; exit 1 + VIOLATION line = code disagrees with the specification on a case the "
-                 "property covers; exit 2 = machinery failure (never a verdict). known_findings.json lists "
-                 "recorded findings and fixed defects.",
+                 "property covers; exit 2 = machinery failure (never a verdict). A line MODEL-DRIFT (C17) reports "
+                 "executions that the implementation-shaped model does not explain although the property-level "
+                 "specification accepts them: it never changes the exit code. known_findings.json lists recorded "
+                 "findings and fixed defects. Extension checks X01..X06 (./vf check X0n) grow the specification "
+                 "beyond the listed properties and are not registered here. Self-tests: harness/selftest.py (code "
+                 "mutants and benign refactorings in mutants/), harness/specmut.py (specification mutants), "
+                 "harness/reseed.py (stored seeded regressions in seeded/).",
     }
     with open(os.path.join(VERIF, "MANIFEST.json"), "w") as fh:
         json.dump(man, fh, indent=1)
